@@ -42,6 +42,10 @@ def table : List (Nat × PCert) :=
     (45, ⟨mk 45 144 100 2002 2000 (-24) 24 false kuE ["other.test"] "other.test" [1], true⟩),
     (53, ⟨mk 53 153 100 2001 2000 (-24) 24 false kuS ["*.test"] "wildcard" [1], true⟩),  -- wildcard names
     (54, ⟨mk 54 154 100 2002 2000 (-24) 24 false kuE ["*.test"] "wildcard" [1], true⟩),
+    (55, ⟨{ mk 55 155 100 2001 2000 (-24) 24 false kuS [] "ip" [1] with ips := ["10.1.2.3"] }, true⟩),     -- IP SAN only
+    (56, ⟨{ mk 56 156 100 2002 2000 (-24) 24 false kuE [] "ip" [1] with ips := ["10.1.2.3"] }, true⟩),
+    (57, ⟨{ mk 57 157 100 2001 2000 (-24) 24 false kuS [] "ip" [1] with ips := ["2001:db8::10"] }, true⟩),
+    (58, ⟨{ mk 58 158 100 2002 2000 (-24) 24 false kuE [] "ip" [1] with ips := ["2001:db8::10"] }, true⟩),
     (46, ⟨mk 46 110 100 2001 2000 (-24) 24 false 0 gm "gm.test" [1], true⟩),            -- no key usage
     (47, ⟨mk 47 111 100 2002 2000 (-24) 24 false 0 gm "gm.test" [1], true⟩),
     (48, ⟨mk 48 111 100 2002 2000 (-24) 24 false kuS gm "gm.test" [1], true⟩),          -- signing usage, enc position
@@ -84,6 +88,12 @@ def serverOf : String → Option (Nat × Key × Nat × Key)
   | "s-notyet-enc" => some (10, 2001, 43, 2002)
   | "s-wildcard-ok" => some (53, 2001, 54, 2002)
   | "s-wildcard-deep" => some (53, 2001, 54, 2002)
+  | "s-ip-ok" => some (55, 2001, 56, 2002)
+  | "s-ip-other" => some (57, 2001, 58, 2002)
+  | "s-ip-dnsonly" => some (10, 2001, 11, 2002)
+  | "s-ip6-ok" => some (57, 2001, 58, 2002)
+  | "s-ip6-dnsonly" => some (10, 2001, 11, 2002)
+  | "s-ip6-sign-only" => some (57, 2001, 11, 2002)
   | "s-wrongname-sign" => some (44, 2001, 11, 2002)
   | "s-wrongname-enc" => some (10, 2001, 45, 2002)
   | "s-rsa-sign" => some (60, 2001, 11, 2002)
@@ -247,7 +257,9 @@ def authOp (args : List String) : String :=
       | none => "bad-op"
       | some (c0, k0, c1, k1) =>
         let mkClient (random : Nat) (pms : Val) : Client :=
-          { insecureSkipVerify := isvS == "1", roots := [caMain], opts := ⟨0, (if attack = "s-wildcard-deep" then "a.gm.test" else "gm.test"), false, "", []⟩,
+          { insecureSkipVerify := isvS == "1", roots := [caMain], opts := (if attack.startsWith "s-ip6-" then ⟨0, "2001:db8::10", true, "2001:db8::10", []⟩
+              else if attack.startsWith "s-ip-" then ⟨0, "10.1.2.3", true, "10.1.2.3", []⟩
+              else ⟨0, (if attack = "s-wildcard-deep" then "a.gm.test" else "gm.test"), false, "", []⟩),
             suites := [suite, other], ext := 7, cert := chain, key := ckey, random := random, pms := pms }
         let mkServer (random : Nat) : Server :=
           { certs := [c0, c1], encDer := c1, signKey := k0, decKey := k1, clientAuth := pol, clientCAs := [caMain], now := 0,
